@@ -358,6 +358,11 @@ class CallMixin:
             raise Unsupported("call of %r" % fn, node)
 
     def call_external(self, name, args, kwargs, st, node):
+        if name in ("copy.deepcopy", "copy.copy") and len(args) == 1:
+            # values are immutable in the model: a (deep) copy is an equal value (ownership is a separate, static obligation)
+            self.note_assumption("copy.deepcopy returns an equal value")
+            yield st, args[0]
+            return
         decl = dsl.REG.contracts.get(name)
         op = self.opaque_spec(name.split(".")[-1], name)
         if decl is None and op is not None:
